@@ -32,6 +32,10 @@ def rv(x):
             return z3.RealVal(x.numerator)
         return z3.RealVal(str(x))
     if isinstance(x, (float, rnp.floating)):
+        if math.isnan(float(x)):
+            # a literal NaN written by the code: modelled as an arbitrary (unconstrained) value -- enough to see that something
+            # was overwritten; counterexamples are replayed with a real NaN
+            return ctx.fresh("nan")
         if not math.isfinite(float(x)):
             raise Unsupported("non-finite float constant %r" % (x,))
         f = Fraction(float(x))
